@@ -21,6 +21,20 @@ type ZGrid struct {
 	Cell *ZInner
 }
 
+type ZIDs []int64
+
+func (ZIDs) HessianCodecName() string { return "[long" }
+
+type ZAttrs map[string]string
+
+func (ZAttrs) HessianCodecName() string { return "com.example.Attrs" }
+
+type ZOwner struct {
+	Ids   ZIDs
+	Attrs ZAttrs
+	Name  string
+}
+
 type ZCells struct {
 	Cells [][]*ZInner
 	Names [][]string
@@ -48,7 +62,7 @@ func checkClosed(id string, tm map[string]reflect.Type, nm map[string]string, go
 // mutually consistent maps, from witnesses ranging from the zero value to a populated, cyclic one; the maps of
 // one witness suffice to round-trip another value of the type. Map iteration order is explored here.
 func H_C16_extract() {
-	which := vChoice("type", 6)
+	which := vChoice("type", 7)
 	witness := vChoice("witness", 3) // 0: zero value, 1: partly populated, 2: fully populated / cyclic
 	x := vInt32("x")
 	vStepLimit(300000)
@@ -126,6 +140,31 @@ func H_C16_extract() {
 		g, ok := out.(*ZTree)
 		vAssert("suffices-type", ok && len(g.Kids) == 1 && g.Kids[0] != nil && g.Attr["k"] != nil)
 		vAssert("suffices-equal", vAnd(g.V == x, vAnd(g.Kids[0].V == 2, vAnd(g.Kids[0].Named.V == 4, vAnd(g.Named.V == 3, g.Attr["k"].N == 6)))))
+	case 6:
+		w := &ZOwner{}
+		if witness >= 1 {
+			w.Ids = ZIDs{1}
+		}
+		if witness == 2 {
+			w.Attrs = ZAttrs{"k": "v"}
+		}
+		tm, nm := ExtractTypeNameMap(w)
+		vStepLimit(0)
+		checkClosed("owner", tm, nm, "ZOwner", reflect.TypeOf(ZOwner{}))
+		n1, ok1 := nm["ZIDs"]
+		vAssert("slice-custom-name", ok1 && n1 == "[long")
+		vAssert("slice-custom-typed", zHasType(tm, "[long", reflect.TypeOf(ZIDs{})))
+		n2, ok2 := nm["ZAttrs"]
+		vAssert("map-custom-name", ok2 && n2 == "com.example.Attrs")
+		vAssert("map-custom-typed", zHasType(tm, "com.example.Attrs", reflect.TypeOf(ZAttrs{})))
+		v2 := &ZOwner{Ids: ZIDs{int64(x), 2}, Attrs: ZAttrs{"a": "b"}, Name: "o"}
+		bs, err := ToBytes(v2, nm)
+		vAssert("suffices-encode", err == nil)
+		out, err := ToObject(bs, tm)
+		vAssert("suffices-decode", err == nil)
+		g, ok := out.(*ZOwner)
+		vAssert("suffices-type", ok && len(g.Ids) == 2 && len(g.Attrs) == 1)
+		vAssert("suffices-equal", vAnd(g.Ids[0] == int64(x), vAnd(g.Ids[1] == 2, vAnd(g.Attrs["a"] == "b", g.Name == "o"))))
 	case 5:
 		w := &ZCells{}
 		if witness == 1 {
